@@ -16,7 +16,7 @@
      tty t               every byte the tty accepted, in order *)
 From Coq Require Import List NArith Arith.
 From SNT Require Import Base.Outcome IO.IOQueue IO.IOQueueProofs IO.IOQueueFrames
-  IO.TermIO IO.TermIOProofs.
+  IO.TermIO IO.TermIOProofs IO.TermIOLive IO.FifoSpec IO.FifoSpecProofs.
 Import ListNotations.
 
 Section Statements.
@@ -26,7 +26,10 @@ Section Statements.
      drop and read_to_end, of any length, with any payloads and amounts *)
 
   (* No call panics, except that the addition `offset + amt` overflows when a caller passes a
-     consume amount that does not fit (beyond anything the queue showed it); in every other
+     consume amount that does not fit (beyond anything the queue showed it).  `Panic 2` is the
+     debug build (overflow checks); in a release build the sum wraps, the branch taken is the
+     wrong one and `length` is corrupted - such amounts violate BufRead::consume's contract and
+     are outside the theorem either way (`amt_fits`).  In every other
      history each call returns, the representation invariant holds (length = readable bytes,
      offset inside the front chunk, no empty chunk before the last) and the bytes handed out
      followed by the bytes still pending are exactly the bytes written, in order, with the
@@ -134,6 +137,50 @@ Section Statements.
       /\ Forall (fun c => exists f, c = filt tframe f (written tops)) Xt
       /\ (forall e, In e (concat Xt) -> ~ In e Rt /\ ~ In e (pending qt)).
   Proof. exact term_frames_never_torn. Qed.
+  (* ---- strong form of "whole flush-delimited": when nothing is handed over between the last
+     flush / poll and a frames_drop (the render loop of terminal.rs drops right after poll;
+     dispose drops what is left), frames are delimited by flush / poll ONLY - the drop is not a
+     delimiter - and every discarded chunk is still one whole frame never seen by the tty *)
+  Theorem C16_frames_flush_delimited : forall (prog : list (top A)) t X,
+    (N.of_nat (length (twritten prog)) <= usize_max)%N ->
+    tdrops_fresh true prog ->
+    trun term0 prog [] = Ok (t, X) ->
+    let tops := tag_ops_g false 0 0 (compile prog) in
+    exists qt Rt Xt,
+      exec qempty tops [] [] = Ok (qt, Rt, Xt)
+      /\ (tq t, tty t, X) = res_map fst (qt, Rt, Xt)
+      /\ Forall (fun c => exists f, c = filt tframe f (written tops)) Xt
+      /\ (forall e, In e (concat Xt) -> ~ In e Rt /\ ~ In e (pending qt)).
+  Proof. exact term_frames_flush_delimited. Qed.
+
+  (* the render loop's schema - poll; frames_drop if too many frames are pending; write the next
+     frame - satisfies that hypothesis (as long as the handler draws on the surface and does not
+     write to the terminal object itself between poll and drop) *)
+  Theorem C16_render_loop_schema : forall (its : list (list (round A) * bool * list (list A))) fresh,
+    Forall (fun it => existsb is_internal (fst (fst it)) = false) its ->
+    tdrops_fresh fresh (concat (map render_iteration its)).
+  Proof. exact render_loop_drops_fresh. Qed.
+
+  (* ---- progress: every round in which the tty accepts at least one byte decreases
+     |pending| + chunks, so a schedule with that many accepting rounds (any sizes) leaves the
+     queue empty with everything delivered in order.  (With a kernel that never accepts a byte
+     nothing is delivered and C16_order / C16_drained say nothing: the wait is the peer's.) *)
+  Theorem C16_progress : forall (sched : list (round A)) (t : term A),
+    TI t -> Forall accepting sched -> work t <= length sched ->
+    exists t', poll_rounds t sched = Ok t'
+      /\ is_empty (tq t') = true
+      /\ tty t' = tty t ++ pending (tq t).
+  Proof. exact accepting_rounds_drain. Qed.
+
+  (* ---- the specification side of the correspondence accepts every history of the model: the
+     property predicate of the queue check can only fail where the implementation departs
+     from the model *)
+  Theorem C16_spec_accepts_model : forall (aeqb : A -> A -> bool),
+    (forall x, aeqb x x = true) ->
+    forall ops : list (op A),
+    (N.of_nat (length (written ops)) <= usize_max)%N ->
+    gfifo_check aeqb ops (trace qempty ops) = true.
+  Proof. exact spec_accepts_model. Qed.
 End Statements.
 
 (* ---- the code as found (before the two `fix:` commits) refutes the property *)
@@ -185,6 +232,20 @@ Proof.
   apply er_keep, er_keep, er_keep. apply (er_drop [4;5]%N [6]%N). apply (er_drop [] [6]%N).
   apply erase_refl.
 Qed.
+
+(* the strong form is not vacuous: a render loop that drops two whole frames *)
+Example C16_flush_delimited_example :
+  let prog := [TWrite [1;2;3]; TPoll [KAccept 1]; TWrite [4]; TPoll []; TWrite [5]; TPoll [];
+               TDrop; TWrite [6]; TPoll [KAccept 9; KAccept 9; KAccept 9]]%N in
+  tdrops_fresh true prog
+  /\ exists t, trun term0 prog [] = Ok (t, [[4]; [5]; []]%N) /\ tty t = [1;2;3;6]%N.
+Proof. split; [cbn; auto|]. eexists. vm_compute. split; reflexivity. Qed.
+
+(* ... and false without the hypothesis: one flush-delimited frame, torn by a drop in the middle *)
+Example C16_drop_mid_frame_tears :
+  exists t, trun term0 [TWrite [9]; TPoll [KAccept 0]; TWrite [1]; TDrop; TWrite [2]; TPoll [KAccept 9; KAccept 9]]%N []
+            = Ok (t, [[1]]%N) /\ tty t = [9; 2]%N.
+Proof. eexists. vm_compute. split; reflexivity. Qed.
 
 (* a reachable state with a partly consumed front chunk and two more chunks *)
 Example C16_reachable_example :
